@@ -608,6 +608,14 @@ def solve(conds, timeout_ms=10000, want_model=True, nice_vars=None, use_cvc5=Tru
                 r = s.check()
                 if r != z3.sat:
                     r = None
+    if verdict == "unknown":
+        # last resort before reporting inconclusive (a loaded machine must not turn a decidable query into `unknown`)
+        s.set("timeout", int(timeout_ms) * 4)
+        r = s.check()
+        if r != z3.unknown:
+            verdict = str(r)
+            solver = "z3-retry"
+            STATS["retried"] = STATS.get("retried", 0) + 1
     if verdict == "sat" and want_model and r == z3.sat:
         m = s.model()
         if nice_vars:
